@@ -643,23 +643,30 @@ def c15(rec):
     total = sum(a for _, a in post["collateral"])
     if bal(b1, esc) != total:
         out.append(V("C15", "escrow-differs-from-records", f"after {k}: collateral escrow holds {bal(b1, esc)}, records sum to {total}", op=k))
+    # records are keyed by the signer string as sent, tokens move to/from the account it denotes
+    acc = dict(pre.get("canon") or []).get
     if k == "initProvider" and rec["ok"]:
         c = v["creator"]
+        a = acc(c, c)
         price = pre["params"]["collateralPrice"]
-        if bal(b0, c) - bal(b1, c) != price or dict(post["collateral"]).get(c) != price:
-            out.append(V("C15", "init-did-not-lock-price", f"initProvider debited {bal(b0, c) - bal(b1, c)}, recorded {dict(post['collateral']).get(c)}, price {price}"))
+        if bal(b0, a) - bal(b1, a) != price or dict(post["collateral"]).get(c) != price:
+            out.append(V("C15", "init-did-not-lock-price", f"initProvider debited {bal(b0, a) - bal(b1, a)}, recorded {dict(post['collateral']).get(c)}, price {price}"))
     if k == "shutdownProvider" and rec["ok"]:
         c = v["creator"]
+        a = acc(c, c)
         rec_amt = dict(pre["collateral"]).get(c)
-        if rec_amt is not None and bal(b1, c) - bal(b0, c) != rec_amt:
-            out.append(V("C15", "shutdown-returned-other-amount", f"shutdown returned {bal(b1, c) - bal(b0, c)}, recorded {rec_amt}"))
+        if bal(b1, a) - bal(b0, a) != (rec_amt or 0):
+            out.append(V("C15", "shutdown-returned-other-amount", f"shutdown of {c} returned {bal(b1, a) - bal(b0, a)}, recorded for it {rec_amt}"))
         if c in dict(post["collateral"]) or c in dict(post["providers"]):
             out.append(V("C15", "shutdown-left-record", "record or provider still present after shutdown"))
+        for other, amt in pre["collateral"]:
+            if other != c and dict(post["collateral"]).get(other) != amt:
+                out.append(V("C15", "shutdown-touched-other-record", f"shutdown of {c} changed the collateral record of {other}"))
     if k not in ("initProvider", "shutdownProvider", "block"):
         if pre["collateral"] != post["collateral"] or bal(b0, esc) != bal(b1, esc):
             out.append(V("C15", "collateral-touched-by-other-message", f"{k} changed collateral records or escrow", op=k))
     for (a, d), x in b1.items():
-        if a != esc and k == "shutdownProvider" and rec["ok"] and a != v["creator"] and b0.get((a, d), 0) != x:
+        if a != esc and k == "shutdownProvider" and rec["ok"] and a != acc(v["creator"], v["creator"]) and b0.get((a, d), 0) != x:
             out.append(V("C15", "foreign-claim", f"shutdown by {v['creator']} changed the balance of {a}"))
     return out + (unchanged_if_failed(rec, "C15") if k in ("initProvider", "shutdownProvider") else [])
 
